@@ -12,6 +12,10 @@ ASSUMPTIONS = [
     'A-time: datetime is a real number of seconds on one naive time line; datetime(d.year,d.month,d.day)=midnight(d); no OverflowError, no microsecond rounding of timedelta(hours=float)',
     'A-stack: unbounded recursion depth (RecursionError on deep acyclic inputs is not modelled)',
     'object equality / `in` on Task, WBS, resources, calendars is identity (no class defines __eq__)',
+    'day arithmetic: dayidx / midnight are uninterpreted functions characterised by the floor axioms core.TIME_AXIOMS (86400*dayidx(t) <= t < 86400*(dayidx(t)+1), midnight(t) = 86400*dayidx(t))',
+    'theory axioms assumed as definitions and not validated against CPython: ledger recursion equations (sched_theory.LEDGER_AX), list-sum extensionality (passes.SUM_AX), abstract text theory (text.py), '
+    'csv / float / int / strftime inverse pairs (csvio.LIB_AX); validated on small exhaustive domains in the thorough tier: list theory, Desc/Acyc/rootof/TCp axioms (selftest/validate_axioms.py), proved in Lean: lemmas/Graph.lean',
+    'every `assume` in a contract is either part of the assumed contract of a callee / library function or a definitional reveal; the count per contracts module is printed in the evidence (assume_scan)',
 ]
 
 
